@@ -59,8 +59,13 @@ RULES = {
     "is tested for its magnitude (`dim_value < 0`) to be replaced - the "
     "serializer writes the rewritten text back, the next deserialization rewrites it again, and for inputs where one pass "
     "creates a new match (`....//x` → `../x` → `x`) the serialized form is not a fixed point",
+    "R13": "a value that is there is written, whatever it is: in the serializer no write of a proto field from `<source>.A` is guarded by a "
+    "comparison of that same `<source>.A` with a particular constant or enum member (`if from_.dtype != DataType.UNDEFINED:`) - the "
+    "reader tells an unset field (no type at all) from an explicit default (`elem_type: 0` is TensorType(UNDEFINED)), so a value that "
+    "is skipped on writing comes back as something else and the next serialization differs from this one (the value_info entry of the "
+    "value disappears): serialize(deserialize(P)) is not a fixed point",
 }
-FLOORS = {"R1": 45, "R2": 6, "R3": 5, "R4": 5, "R5": 2, "R6": 3, "R7": 2, "R8": 3, "R9": 2, "R10": 4, "R11": 1, "R12": 1}
+FLOORS = {"R1": 45, "R2": 6, "R3": 5, "R4": 5, "R5": 2, "R6": 3, "R7": 2, "R8": 3, "R9": 2, "R10": 4, "R11": 1, "R12": 1, "R13": 30}
 EXPLANATION = (
     "Effect summaries (file-system primitives through the resolved call graph) for the deserialization entry set and "
     "the cheap tensor accessors; a sub-term analysis of every recursive call edge of the deserializer; dominator "
@@ -560,6 +565,40 @@ def rule_r10(ctx, ef):
     ctx.require(n >= 4, f"only {n} arguments of parameter-writing serde functions found")
 
 
+def rule_r13(ctx):
+    m = ctx.repo.modules[SERDE]
+    n = 0
+    for f in m.all_funcs:
+        if isinstance(f.node, ast.Lambda) or not f.name.lstrip("_").startswith(("serialize", "fill_in", "maybe_add")):
+            continue
+        for iff in (x for x in own_nodes(f.node) if isinstance(x, ast.If)):
+            n += 1
+            for t in ast.walk(iff.test):
+                if not (isinstance(t, ast.Compare) and len(t.ops) == 1 and isinstance(t.ops[0], (ast.Eq, ast.NotEq, ast.Lt, ast.LtE, ast.Gt, ast.GtE))):
+                    continue
+                for side, other in ((t.left, t.comparators[0]), (t.comparators[0], t.left)):
+                    src = side.value if isinstance(side, ast.Attribute) and side.attr == "value" else side
+                    if not (isinstance(src, ast.Attribute) and isinstance(src.value, ast.Name) and src.value.id in f.params):
+                        continue
+                    const = isinstance(other, ast.Constant) and other.value is not None or (isinstance(other, ast.Attribute) and (dotted_of(other) or "").split(".")[-1].isupper())
+                    if not const:
+                        continue
+                    want = norm(src)
+                    writes = [a for st in iff.body for a in ast.walk(st) if isinstance(a, ast.Assign) and isinstance(a.targets[0], ast.Attribute)
+                              and any(isinstance(y, ast.Attribute) and norm(y) == want for y in ast.walk(a.value))]
+                    for a in writes:
+                        ctx.check("R13", f"{f.local}: `{norm(a)[:50]}` is written whatever the value of {want}", False, f, iff,
+                                  f"`{norm(a)[:60]}` is skipped when `{norm(t)[:60]}` fails: `{want}` is there but not written, and the reader does not give that value back for an "
+                                  "unset field (an unset elem_type is no type at all, an explicit 0 is a tensor type of UNDEFINED elements) - the value read back differs, so the "
+                                  "next serialization differs from this one",
+                                  how="if-tests of the serializer comparing a source attribute with a constant / enum member around a write from that same attribute",
+                                  construct=f"write of {want} guarded by its own value in {f.local}")
+    for _ in range(n):
+        ctx.counts["R13"] = ctx.counts.get("R13", 0) + 1
+    ctx.ob("R13", f"{n} if-statements of the serializer examined: none guards a write by the value of what is written", True, nontrivial=False)
+    ctx.require(n >= 30, f"only {n} if-statements found in the serializer")
+
+
 def rule_r11(ctx):
     m = ctx.repo.modules[SERDE]
     n = 0
@@ -714,6 +753,7 @@ def _is_text_field(ctx, g, e) -> bool:
 def run(ctx):
     rule_r12(ctx)
     rule_r11(ctx)
+    rule_r13(ctx)
     rule_r9(ctx)
     rule_r8(ctx)
     from ..shared import rule_s9
